@@ -1,0 +1,24 @@
+//go:build verif
+
+// Contracts for package core (comment-only; read by /verif/bin/zv, never compiled into the product).
+package core
+
+// compare: total preorder on values of one dynamic type; its body is a type switch with unchecked assertions on b,
+// so its no-panic precondition (same dynamic type or nil) is an assumption at Less's call (recorded in evidence).
+//@ func compare
+//@   pure
+
+//@ func (*FlatRow).Get
+//@   pureheap
+
+//@ define cmpKey(ob, a, b) = ob.Field == "_time" ? sign(ob.Descending ? b.TS - a.TS : a.TS - b.TS) : sign(ob.Descending ? compare(b.Get(ob.Field), a.Get(ob.Field)) : compare(a.Get(ob.Field), b.Get(ob.Field)))
+
+// C09: Less is the lexicographic comparison of the full key list (first key on which the rows differ decides).
+//@ func (orderedRows).Less
+//@   requires idx: 0 <= i && i < len(r.rows) && 0 <= j && j < len(r.rows)
+//@   requires nonnil: r.rows[i] != nil && r.rows[j] != nil
+//@   ensures lex: result == (exists o in 0..len(r.orderBy) :: cmpKey(r.orderBy[o], r.rows[i], r.rows[j]) < 0 && (forall o2 in 0..o :: cmpKey(r.orderBy[o2], r.rows[i], r.rows[j]) == 0))
+//@   loop 0 invariant prefix_ties: forall o in 0..$i :: cmpKey(r.orderBy[o], r.rows[i], r.rows[j]) == 0
+//@   loop 0 invariant range: 0 <= $i && $i <= len(r.orderBy)
+//@   loop 0 decreases len(r.orderBy) - $i
+//@   nopanic own
